@@ -62,6 +62,7 @@ class Resolution:
 
 class Resolver:
     def __init__(self, program: Program):
+        self._rebound = {}
         self.p = program
         self._attr_cache: Dict[tuple, Set[str]] = {}
         self._ret_cache: Dict[str, Set[str]] = {}
@@ -498,8 +499,30 @@ class Resolver:
                 return None
             f = f.parent
         g = self.lookup_global(name, fn.module)
-        if g and g[0] == "value" and isinstance(g[1], ast.Tuple) and all(isinstance(e, ast.Constant) for e in g[1].elts):
-            return g[1]
+        if not (g and g[0] == "value"):
+            return None
+        v, mod = g[1], g[2]
+        # never rebound: no `global NAME` anywhere in the defining module
+        key = (mod.rel, name)
+        if key not in self._rebound:
+            self._rebound[key] = any(isinstance(n, ast.Global) and name in n.names for f in mod.all_functions for n in ast.walk(f.node))
+        if self._rebound[key]:
+            return None
+
+        def const(e, depth=0):
+            if isinstance(e, ast.Constant):
+                return True
+            if isinstance(e, ast.Tuple) and depth < 3:
+                return all(const(x, depth + 1) or isinstance(x, ast.Name) or (isinstance(x, ast.Attribute) and isinstance(x.value, ast.Name))
+                           for x in e.elts)
+            return False
+
+        if isinstance(v, ast.Tuple) and const(v):
+            if all(isinstance(e, ast.Constant) for e in v.elts) or mod is fn.module:
+                return v  # (tuples naming functions/classes are only meaningful inside their own module)
+            return None
+        if isinstance(v, ast.Constant) and isinstance(v.value, (str, int, float, bytes, bool, type(None))):
+            return v
         return None
 
     def property_getter(self, t: ast.Attribute, st) -> Optional[FuncInfo]:
